@@ -19,6 +19,15 @@ Extends the description language of `gen/desc.py` (kinds 'v', 'D', 'd', 'L',
   ['fn', shape, [desc...], [[name, desc]...]]   lambda / locally defined function
                                       (FN_SHAPES) whose __defaults__ / __kwdefaults__
                                       are the described values
+  ['oeq', name, v, tag]               opaque picklable object whose __eq__ is user-defined
+                                      and hostile (OPAQUE_EQ: always / never / by one
+                                      attribute / ambiguous truth value / raising)
+  ['kp', [key...]]                    pg.KeyPath(keys)
+  ['dnaspec', desc]                   pg.dna_spec(build(desc)): the DNASpec of a search space
+                                      given as a value (dicts / lists with hyper values)
+('O' / 'P' also name the classes of this module: EqAlways, EqByField, EqNever,
+UeqHolder - pg.Object subclasses that override sym_eq - and Bookmark, which has
+pg.KeyPath-typed fields.)
 
 Everything is JSON-able, so a case can be printed, replayed and *shrunk*:
 `shrinks(desc)` lists strictly smaller descriptions; `kind(desc)` names the
@@ -135,6 +144,151 @@ class FnBox(pg.Object):
   fn: T.Callable()
   cb: T.Callable([T.Any()]).noneable() = None
   extra: T.Any() = None
+
+
+# -- values whose equality is defined by the user -------------------------------------
+#
+# `==` / pg.eq say nothing about such a value: the round-trip monitors compare
+# them member by member (pg.Object subclasses) or by type and attributes
+# (opaque objects), never through their own equality.
+
+class EqAlways(pg.Object):
+  """sym_eq overridden: equal to anything."""
+  x: T.Any() = None
+
+  def sym_eq(self, other):
+    return True
+
+
+class EqByField(pg.Object):
+  """sym_eq overridden the way the doc-string of pg.eq shows: also equal to
+  the value it wraps (`x` is required: EqByField.partial() wraps MISSING_VALUE)."""
+  x: T.Any()
+
+  def sym_eq(self, other):
+    if super().sym_eq(other):
+      return True
+    return pg.eq(self.sym_getattr('x'), other)
+
+
+class EqNever(pg.Object):
+  """sym_eq overridden: equal to nothing, not even to a copy of itself."""
+  x: T.Any() = None
+
+  def sym_eq(self, other):
+    return False
+
+
+class UeqHolder(pg.Object):
+  """Schema-backed slots (with defaults) for values with user-defined equality."""
+  w: T.Object(EqByField) = EqByField(0)
+  a: T.Any() = None
+  n: T.Object(EqNever).noneable() = None
+  u: T.Union([T.Object(EqAlways), T.Int()]) = 0
+  m: T.Dict([(T.StrKey(), T.Any())]) = {}
+  k: T.Int() = 0
+
+
+class _OpaqueEq:
+  """Base of the opaque (pickled) objects with a hostile __eq__."""
+
+  def __init__(self, v=0, tag=None):
+    self.v, self.tag = v, tag
+
+  def __repr__(self):
+    return f'{type(self).__name__}({self.v!r}, {self.tag!r})'
+
+
+class OpaqueEqAlways(_OpaqueEq):
+  """A wildcard matcher (like unittest.mock.ANY)."""
+
+  def __eq__(self, other):
+    return True
+
+  def __ne__(self, other):
+    return False
+
+  def __hash__(self):
+    return 0
+
+
+class OpaqueEqNever(_OpaqueEq):
+
+  def __eq__(self, other):
+    return False
+
+  def __ne__(self, other):
+    return True
+
+  def __hash__(self):
+    return 1
+
+
+class OpaqueEqByKey(_OpaqueEq):
+  """Equal by one attribute (`tag` does not count), also to the bare key."""
+
+  def __eq__(self, other):
+    if isinstance(other, OpaqueEqByKey):
+      return self.v == other.v
+    return self.v == other
+
+  def __ne__(self, other):
+    return not self.__eq__(other)
+
+  def __hash__(self):
+    return hash(self.v)
+
+
+class _Ambiguous:
+
+  def __bool__(self):
+    raise ValueError('the truth value of this comparison is ambiguous')
+
+
+class OpaqueEqAmbiguous(_OpaqueEq):
+  """Array-like: == returns an object without a truth value."""
+  __hash__ = None
+
+  def __eq__(self, other):
+    return _Ambiguous()
+
+  def __ne__(self, other):
+    return _Ambiguous()
+
+
+class OpaqueEqRaises(_OpaqueEq):
+
+  def __eq__(self, other):
+    raise RuntimeError('this object cannot be compared')
+
+  def __ne__(self, other):
+    raise RuntimeError('this object cannot be compared')
+
+  def __hash__(self):
+    return 2
+
+
+OPAQUE_EQ = {'always': OpaqueEqAlways, 'never': OpaqueEqNever, 'by-key': OpaqueEqByKey,
+             'ambiguous': OpaqueEqAmbiguous, 'raises': OpaqueEqRaises}
+OPAQUE_EQ_TYPES = tuple(OPAQUE_EQ.values())
+UEQ_CLASSES = ('EqAlways', 'EqByField', 'EqNever')
+
+
+class Bookmark(pg.Object):
+  """Remembers locations: pg.KeyPath-typed slots and an untyped one."""
+  where: T.Object(pg.KeyPath)
+  alt: T.Object(pg.KeyPath).noneable() = None
+  trail: T.List(T.Object(pg.KeyPath)) = []
+  by_name: T.Dict([(T.StrKey(), T.Object(pg.KeyPath))]) = {}
+  note: T.Any() = None
+
+
+# Keys of a path / of a search-space dict: negative ints, strings that look like
+# ints, the empty string, strings with the delimiters of the path syntax
+# (balanced brackets: see KEY_STRINGS), marker look-alikes, other text.
+KP_KEYS = [-1, -2, -10**6, 0, 1, 7, 10**12, '-1', '1', '007', '-0', '--1', '-', '\xb2', '',
+           'a', 'items', 'a.b', '.', 'x[0]', '[-1]', '[0]', '[]', '[a.b]', 'n_:1', ' ',
+           'a b', '\xe9', "a'b", 'a"b', 'a\\b', 'a\nb']
 
 
 _MODULE_LAMBDA = lambda x, a, b: [x, (a, b)]      # pylint: disable=unnecessary-lambda-assignment
@@ -276,7 +430,7 @@ def has_code_fn(d):
 UNTYPED = ['Any2', 'Writable', 'Notifier', 'Bound', 'NoSymCmp']
 FAMILIES = [('prim', 6), ('container', 30), ('object', 16), ('typed-root', 7),
             ('symbol', 5), ('spec', 14), ('schema', 5), ('space', 8), ('dna', 9),
-            ('function', 9)]
+            ('function', 9), ('usereq', 8), ('keypath', 8)]
 
 
 # -- generation ---------------------------------------------------------------
@@ -423,6 +577,150 @@ def gen_space(rng, max_points=8):
   return SP.space(SP.choice(1, SP.consts(2), loc='p0'))
 
 
+def gen_ueq(rng, depth=1):
+  """A value whose equality is user-defined."""
+  r = rng.random()
+  inner = lambda: (gen_ueq(rng, depth - 1) if depth > 0 and rng.random() < 0.3
+                   else ['v', rng.choice([0, 1, 'a', None, 2.5, [1], {'a': 1}])])
+  if r < 0.45:
+    name = rng.choice(['always', 'always', 'always', 'never', 'by-key', 'ambiguous', 'raises'])
+    return ['oeq', name, rng.randint(0, 3), rng.choice([None, None, 1, 'b'])]
+  if r < 0.6:
+    return ['P', 'EqByField', []]
+  if r < 0.72:
+    return ['O', 'EqByField', [['x', inner()]]]
+  if r < 0.88:
+    return ['O', 'EqAlways', [['x', inner()]] if rng.random() < 0.7 else []]
+  return ['O', 'EqNever', [['x', inner()]] if rng.random() < 0.7 else []]
+
+
+def _hold(rng, u, others):
+  """`u` as a member of an object / container (`others` fills other slots)."""
+  p = 'P' if is_partial(u) else 'O'
+  r = rng.random()
+  if r < 0.26:
+    cls = rng.choice(UNTYPED)
+    fields = [['x', u]] + ([] if cls in ('Bound', 'NoSymCmp') or rng.random() < 0.4
+                           else [['y', others()]])
+    rng.shuffle(fields)
+    return [p, cls, fields]
+  if r < 0.5:
+    fields = []
+    if u[1] == 'EqByField':
+      fields.append(['w', u])
+    elif u[1] == 'EqNever' and u[0] == 'O' and rng.random() < 0.7:
+      fields.append(['n', u])
+    elif u[1] == 'EqAlways' and u[0] == 'O' and rng.random() < 0.7:
+      fields.append(['u', u])
+    elif rng.random() < 0.35:
+      fields.append(['m', ['d', [[rng.choice(V.SAFE_KEYS), u]]]])
+    else:
+      fields.append(['a', u])
+    if rng.random() < 0.5 and all(k != 'a' for k, _ in fields):
+      fields.append(['a', others()])
+    if rng.random() < 0.4:
+      fields.append(['k', ['v', rng.randint(0, 9)]])
+    rng.shuffle(fields)
+    return [p, 'UeqHolder', fields]
+  if r < 0.56:
+    return ['P', 'Required', [['r', ['v', rng.randint(0, 9)]], ['opt', u]]]
+  if r < 0.6:
+    return ['F', [['a', u]]] if p == 'O' else ['t', [u]]
+  if r < 0.78:
+    d = [rng.choice('DDd'), [[gen_key(rng), u]]]
+    if rng.random() < 0.5:
+      d[1] += _fields(rng, 2, others)
+      d[1] = [kv for i, kv in enumerate(d[1]) if kv[0] not in [x[0] for x in d[1][:i]]]
+      rng.shuffle(d[1])
+    return d
+  items = [u] + [others() for _ in range(rng.randint(0, 2))]
+  rng.shuffle(items)
+  return [rng.choice('ttlllL'), items]
+
+
+def gen_usereq(rng):
+  """A value with user-defined equality held by schema-backed fields (untyped
+  and typed, with defaults, of complete and partial objects), by dict, tuple
+  and list members, alone and nested."""
+  def others():
+    return gen_ueq(rng, 0) if rng.random() < 0.3 else gen_any(rng, 1)
+  u = gen_ueq(rng)
+  if rng.random() < 0.08:
+    return u
+  d = _hold(rng, u, others)
+  if rng.random() < 0.35:
+    d = _hold(rng, d, others)
+  return d
+
+
+def gen_kp(rng):
+  n = rng.choice([0, 1, 1, 2, 2, 3, 4])
+  return ['kp', [rng.choice(KP_KEYS) if rng.random() < 0.8 else rng.choice(V.SAFE_KEYS)
+                 for _ in range(n)]]
+
+
+def gen_hyper_tree(rng, depth=2, top=True):
+  """A search space as a value: (nested) pg.Dict / list whose hyper values
+  (also nested in candidates) sit under keys of KP_KEYS / at list indices."""
+  def leaf():
+    r = rng.random()
+    if r < 0.3:
+      return ['H', 'floatv', rng.choice([0.0, -1.0]), rng.choice([1.0, 2.5])]
+    if r < 0.85 or depth <= 0:
+      cands = [(gen_hyper_tree(rng, depth - 1, False) if depth > 0 and rng.random() < 0.25
+                else ['v', rng.choice([0, 1, 'a', 'b', None, 2.5])])
+               for _ in range(rng.randint(2, 3))]
+      return ['H', rng.choice(['oneof', 'oneof', 'manyof']), cands]
+    return ['v', rng.randint(0, 9)]
+  def member():
+    if depth > 0 and rng.random() < 0.3:
+      return gen_hyper_tree(rng, depth - 1, False)
+    return leaf()
+  if not top and rng.random() < 0.25:
+    return ['L', [member() for _ in range(rng.randint(1, 2))]]
+  keys = []
+  for _ in range(rng.randint(1, 3)):
+    k = rng.choice(KP_KEYS) if rng.random() < 0.75 else rng.choice(V.SAFE_KEYS)
+    if k not in keys:
+      keys.append(k)
+  return ['D', [[k, member()] for k in keys]]
+
+
+def gen_keypath(rng):
+  """pg.KeyPath values in typed and untyped slots; DNASpecs of search spaces
+  whose decision points sit under the same kinds of key."""
+  r = rng.random()
+  if r < 0.3:
+    return ['dnaspec', gen_hyper_tree(rng)]
+  kp = gen_kp(rng)
+  if r < 0.36:
+    return kp
+  if r < 0.75:
+    fields = [['where', kp]]
+    if rng.random() < 0.4:
+      fields.append(['alt', gen_kp(rng)])
+    if rng.random() < 0.4:
+      fields.append(['trail', ['l', [gen_kp(rng) for _ in range(rng.randint(1, 3))]]])
+    if rng.random() < 0.3:
+      fields.append(['by_name', ['d', [[rng.choice(V.SAFE_KEYS), gen_kp(rng)]]]])
+    if rng.random() < 0.4:
+      fields.append(['note', gen_kp(rng) if rng.random() < 0.6 else gen_any(rng, 1)])
+    rng.shuffle(fields)
+    d = ['O', 'Bookmark', fields]
+    if rng.random() < 0.3:
+      d = [rng.choice('DLt'), [d]]
+      if d[0] == 'D':
+        d[1] = [[gen_key(rng), d[1][0]]]
+    return d
+  if r < 0.85:
+    cls = rng.choice(UNTYPED)
+    return ['O', cls, [['x', kp]]]
+  k = rng.choice('DdLlt')
+  if k in 'Dd':
+    return [k, [[gen_key(rng), kp]] + ([['z', gen_kp(rng)]] if rng.random() < 0.4 else [])]
+  return [k, [kp] + [gen_kp(rng) for _ in range(rng.randint(0, 2))]]
+
+
 def gen_value(rng, family=None):
   """(family, description) of one serializable value."""
   if family is None:
@@ -452,6 +750,10 @@ def gen_value(rng, family=None):
       d = ['dna', gen_space(rng), rng.randint(0, 10**6)]
     elif family == 'function':
       d = gen_function_value(rng)
+    elif family == 'usereq':
+      d = gen_usereq(rng)
+    elif family == 'keypath':
+      d = gen_keypath(rng)
     else:
       raise ValueError(family)
     if any(x[0] == 'H' for x in _all(d)) and has_nan(d):
@@ -472,7 +774,7 @@ def gen_storable(rng, size=None):
     fam, d = 'object', D.typed_obj(rng, fill=min(0.9, 0.2 + 0.25 * size))
   elif r < 0.4 and size:
     fam, d = gen_value(rng, rng.choice(['spec', 'spec', 'space', 'dna', 'object', 'object',
-                                        'object', 'schema']))
+                                        'object', 'schema', 'usereq', 'keypath']))
   elif size == 0:
     fam, d = 'prim', gen_leaf(rng)
     if d[0] != 'v':
@@ -525,7 +827,13 @@ def build(d):
   if k == 'fn':
     return build_fn(d[1], [build(x) for x in d[2]], [(kk, build(vv)) for kk, vv in d[3]])
   if k == 'P':
-    return getattr(M, d[1]).partial(**{kk: build(vv) for kk, vv in d[2]})
+    return _cls(d[1]).partial(**{kk: build(vv) for kk, vv in d[2]})
+  if k == 'oeq':
+    return OPAQUE_EQ[d[1]](d[2], d[3])
+  if k == 'kp':
+    return pg.KeyPath(list(d[1]))
+  if k == 'dnaspec':
+    return pg.dna_spec(build(d[1]))
   if k == 'F':
     return M.add_fn(**{kk: build(vv) for kk, vv in d[1]})
   if k == 'H':
@@ -611,7 +919,51 @@ def hash_undefined(d, in_tuple=False):
 
 
 def size(d):
+  if d[0] == 'dnaspec':
+    return 1 + size(d[1])
+  if d[0] == 'kp':
+    return 1 + len(d[1])
   return 1 + sum(size(s) for s in subdescs(d))
+
+
+def has_kind(d, kinds):
+  return d[0] in kinds or any(has_kind(s, kinds) for s in subdescs(d))
+
+
+def has_user_eq(d):
+  """Some member defines its own equality: pg.eq / == of the value (and of
+  everything that holds it) is not a statement about its content."""
+  if d[0] == 'oeq' or (d[0] in ('O', 'P') and d[1] in UEQ_CLASSES):
+    return True
+  return any(has_user_eq(s) for s in subdescs(d))
+
+
+def reflects(d, v):
+  """The built value has the members its description lists. (A constructor
+  that drops or re-reads a member - e.g. one that compares members with a
+  marker by == - is not the business of a codec: such a build is not a case.)"""
+  k = d[0]
+  get = lambda key: v.sym_getattr(key) if isinstance(v, pg.Symbolic) else v[key]
+  try:
+    if k in ('D', 'd'):
+      if not isinstance(v, dict) or len(v) != len(d[1]):
+        return False
+      return all(kk in v and reflects(vv, get(kk)) for kk, vv in d[1])
+    if k in ('L', 'l', 't'):
+      if not isinstance(v, (tuple if k == 't' else list)) or len(v) != len(d[1]):
+        return False
+      return all(reflects(vv, get(i)) for i, vv in enumerate(d[1]))
+    if k in ('O', 'P'):
+      return type(v) is _cls(d[1]) and all(reflects(vv, get(kk)) for kk, vv in d[2])
+    if k == 'F':
+      return all(reflects(vv, get(kk)) for kk, vv in d[1])
+    if k == 'oeq':
+      return type(v) is OPAQUE_EQ[d[1]]
+    if k == 'v' and isinstance(d[1], (list, dict, tuple)):
+      return isinstance(v, type(d[1])) and len(v) == len(d[1])
+  except Exception:  # pylint: disable=broad-except
+    return False
+  return True
 
 
 # -- shrinking ------------------------------------------------------------------
@@ -853,6 +1205,19 @@ def shrinks(d):
     return [['space', s] for s in _space_shrinks(d[1])]
   if k == 'dna':
     return [['dna', s, d[2]] for s in _space_shrinks(d[1])]
+  if k == 'oeq':
+    if d[2:] != [0, None]:
+      out.append(['oeq', d[1], 0, None])
+    if d[1] != 'always':
+      out.append(['oeq', 'always', d[2], d[3]])
+    return out
+  if k == 'kp':
+    keys = d[1]
+    out += [['kp', keys[:i] + keys[i + 1:]] for i in range(len(keys))]
+    out += [['kp', keys[:i] + ['a'] + keys[i + 1:]] for i in range(len(keys)) if keys[i] != 'a']
+    return out
+  if k == 'dnaspec':
+    return [['dnaspec', s] for s in shrinks(d[1]) if has_kind(s, ('H',))]
   return out
 
 
@@ -901,6 +1266,22 @@ def str_class(s):
   if s.isalnum() or s.replace('_', '').isalnum():
     return 'plain'
   return 'punct'
+
+
+def path_key_class(k):
+  """Class of a key of a path / of a search-space dict."""
+  if isinstance(k, int):
+    return 'neg-int' if k < 0 else 'int'
+  if k == '':
+    return 'str-empty'
+  if k.lstrip('-').isdigit():
+    return 'str-int-like'
+  if any(ch in k for ch in '.[]'):
+    return 'str-delimiters'
+  return 'str'
+
+
+SHOW_MEMBERS = UNTYPED + ['FnBox', 'UeqHolder', 'Bookmark', 'EqAlways', 'EqByField', 'EqNever']
 
 
 def _prim_kind(v):
@@ -956,11 +1337,13 @@ def default_class(d, depth=0):
     return _SYM_CLASS.get(d[1], d[1].split('-')[0].replace('classmethod', 'method'))
   if k in ('O', 'P', 'F', 'H'):
     return 'object'
-  if k == 'leaf':
+  if k in ('leaf', 'oeq'):
     return 'opaque'
+  if k == 'kp':
+    return 'keypath'
   if k in ('spec', 'specx', 'field', 'schema', 'schema2'):
     return 'spec'
-  if k in ('space', 'dna'):
+  if k in ('space', 'dna', 'dnaspec'):
     return 'geno'
   if k == 'fn':
     return 'code-function'
@@ -1000,9 +1383,19 @@ def kind(d, depth=0):
       return name
     first = kind(d[1][0], depth + 1)
     return f'{name}(first-{first})' if len(d[1]) > 1 else f'{name}({first})'
+  if k == 'oeq':
+    return 'opaque-eq-' + d[1]
+  if k == 'kp':
+    if not d[1]:
+      return 'keypath-root'
+    return 'keypath(' + ','.join(sorted({path_key_class(x) for x in d[1]})[:2]) + ')'
+  if k == 'dnaspec':
+    keys = sorted({path_key_class(kk) for s in _all(d[1]) if s[0] in ('D', 'd')
+                   for kk, _ in s[1]})
+    return 'dnaspec-of-keys(' + ','.join(keys[:2]) + ')'
   if k in ('O', 'P'):
     name = d[1] + ('.partial' if k == 'P' else '')
-    if depth >= 2 or not d[2] or d[1] not in UNTYPED + ['FnBox']:
+    if depth >= 2 or not d[2] or d[1] not in SHOW_MEMBERS:
       return name
     inner = sorted({kind(s, depth + 1) for _, s in d[2]})
     return f"{name}({','.join(inner[:2])})"
@@ -1067,6 +1460,16 @@ def show(d):
       return 'add_fn(%s)' % ', '.join(f'{a}={show(b)}' for a, b in d[1])
     if k == 'sym':
       return f'<{d[1]}>'
+    if k == 'oeq':
+      return f'{OPAQUE_EQ[d[1]].__name__}({d[2]!r}, {d[3]!r})'
+    if k == 'kp':
+      return f'KeyPath({d[1]!r})'
+    if k == 'dnaspec':
+      return f'dna_spec({show(d[1])})'
+    if k == 'H':
+      if d[1] == 'floatv':
+        return f'floatv({d[2]}, {d[3]})'
+      return '%s([%s])' % (d[1], ', '.join(show(c) for c in d[2]))
     if k == 'fn':
       return '<%s %s>' % (d[1], ', '.join(
           [show(x) for x in d[2]] + [f'{n}={show(x)}' for n, x in d[3]]))
